@@ -81,30 +81,47 @@ Proof. exact roundtrip_ultra. Qed.
 
 (* ZRLE / TRLE: for every choice oracle - tile sub-encoding (raw, solid, packed palette, plain RLE, palette RLE, TRLE
    reuse of the previous palette), palette padding, run splitting - the client paints exactly the encoded pixels.
+   Little-endian client formats only ([f_be = false]: the reference encoders serialise little-endian and the mirror's
+   RGB_TO_PIXEL does not model the byte swap of big-endian formats).
    [cp_agree f v]: the client's CPIXEL instance [v] (chosen by rfbclient.c from the format) reads the CPIXEL layout
    the RFC prescribes for [f]; [cp_ok v p]: the pixel value has only the bits that CPIXEL transports.
    ZRLE additionally needs the tile stream to fit the scratch area (2 x raw size: finding C07-F2 otherwise). *)
 Theorem C07_roundtrip_zrle : forall ch s x y w h tgt ts fresh,
-  st_wf s -> cp_agree (c_fmt s) (variant_of s) -> fixed s 8 = true ->
+  st_wf s -> f_be (c_fmt s) = false -> cp_agree (c_fmt s) (variant_of s) -> fixed s 8 = true ->
   0 <= x -> 0 <= y -> 0 <= w -> 0 <= h -> x + w <= c_w s -> y + h <= c_h s ->
   rows_wf w h tgt -> Forall (Forall (cp_ok (variant_of s))) tgt ->
-  fresh = negb (zact_get s 0) ->
+  fresh = zrle_fresh s ->
   let minsz := w * h * rbytes (variant_of s) * 2 + 4 in
   let cap := if c_rawsz s <? minsz then minsz else c_rawsz s in
   zlen (tiles_rows ch 0 (c_fmt s) false 64 (Z.to_nat (h / 64 + 1)) 0 w h tgt 0 []) <= cap - 4 ->
   dec_zrle x y w h s (ref_zrle ch (c_fmt s) fresh w h tgt ++ ts)
-  = Ok tt (set_fb (zact_set (set_rawsz s cap) 0 true) (blit_spec (c_fb s) x y tgt)) ts.
-Proof. exact roundtrip_zrle. Qed.
+  = Ok tt (set_fb (zrle_mark (set_rawsz s cap)) (blit_spec (c_fb s) x y tgt)) ts.
+Proof. intros ch s x y w h tgt ts fresh Hs _. now apply roundtrip_zrle. Qed.
+
+(* The reference server keeps ONE deflate stream PER ENCODING (RFC 6143 7.7.6 for ZRLE; this repository's server:
+   cl->compStream for Zlib, cl->zrleData for ZRLE): [ref_zrle] emits blocks of stream 5, [ref_zlib] of stream 0.
+   The client of HEAD feeds both into its single decompStream ([zrle_fresh] / [zrle_mark] with fix bit 11 off): the
+   two theorems above compose only when the session uses ONE of the two encodings.  After a Zlib rectangle the first
+   ZRLE rectangle of a conforming server is REFUSED by the mirror of HEAD - and by the real client paired with this
+   repository's server (finding C07-F4, notes/fix_C07_3.diff = fix bit 11) *)
+Theorem C07_zlib_then_zrle_refused : forall s x y w h z data ts,
+  fixed s 11 = false -> zact_get s 0 = true ->
+  dec_zrle x y w h s (TZ 5 true z data :: ts) = Fail.
+Proof.
+  intros s x y w h z data ts F Hz. unfold dec_zrle, bind, get_st, upd_st, rd_zrle_stream, rd_zblock, bind, get_st.
+  cbn [negb Z.eqb Pos.eqb]. unfold fixed in *. cbn [c_fix set_rawsz]. rewrite F.
+  unfold zact_get in *. cbn [c_zact set_rawsz]. rewrite Hz. reflexivity.
+Qed.
 
 Theorem C07_roundtrip_trle : forall ch s x y w h tgt ts,
-  st_wf s -> cp_agree (c_fmt s) (variant_of s) -> fixed s 4 = true ->
+  st_wf s -> f_be (c_fmt s) = false -> cp_agree (c_fmt s) (variant_of s) -> fixed s 4 = true ->
   0 <= x -> 0 <= y -> 0 <= w -> 0 <= h -> x + w <= c_w s -> y + h <= c_h s ->
   rows_wf w h tgt -> Forall (Forall (cp_ok (variant_of s))) tgt ->
   let minsz := cTRLE_tile * cTRLE_tile * rbytes (variant_of s) * 2 in
   let cap := if c_rawsz s <? minsz then minsz else c_rawsz s in
   dec_trle x y w h s (ref_trle ch (c_fmt s) w h tgt ++ ts)
   = Ok tt (set_fb (set_rawsz s cap) (blit_spec (c_fb s) x y tgt)) ts.
-Proof. exact roundtrip_trle. Qed.
+Proof. intros ch s x y w h tgt ts Hs _. now apply roundtrip_trle. Qed.
 
 (* the hypotheses are satisfiable: the baseline client state for 24-in-32 (3-byte CPIXEL), 10-10-10 (4 bytes),
    RGB565 and BGR233 formats *)
@@ -126,12 +143,12 @@ Proof. cbv zeta. repeat split; reflexivity. Qed.
    non-888 formats; trivially true for 888 formats, proved for RGB565: CliRtTight.gfmt_ok_565);
    w <= 2048: the Tight specification's maximal rectangle width (the client's row buffers). *)
 Theorem C07_roundtrip_tight : forall ch s x y w h tgt ts z0 a b c d,
-  st_wf s -> bypp_ok s -> c_zact s = [z0; a; b; c; d] -> gfmt_ok (c_fmt s) (bypp_of s) ->
+  st_wf s -> f_be (c_fmt s) = false -> bypp_ok s -> c_zact s = [z0; a; b; c; d] -> gfmt_ok (c_fmt s) (bypp_of s) ->
   0 <= x -> 0 <= y -> 1 <= w <= 2048 -> 1 <= h -> x + w <= c_w s -> y + h <= c_h s ->
   rows_wf w h tgt -> Forall (Forall (tpix_ok (c_fmt s))) tgt ->
   dec_tight x y w h s (fst (ref_tight ch (c_fmt s) w h tgt [a; b; c; d]) ++ ts)
   = Ok tt (set_fb (set_zact s (z0 :: snd (ref_tight ch (c_fmt s) w h tgt [a; b; c; d]))) (blit_spec (c_fb s) x y tgt)) ts.
-Proof. exact roundtrip_tight. Qed.
+Proof. intros ch s x y w h tgt ts z0 a b c d Hs _. now apply roundtrip_tight. Qed.
 
 Example C07_roundtrip_tight_nonvacuous :
   let f888 := mkfmt 32 24 false 255 255 255 16 8 0 in
